@@ -705,4 +705,37 @@ theorem rejects_bad_address (be : Backend) (val1 : List Char) (h1 : val1.contain
 example : addr4Spec "1.2.3.256".toList = none ∧ inetPton6 .platform "1.2.3.256".toList = none ∧
     addr4Spec "1.2.3.4.5".toList = none ∧ addr4Spec "1..2".toList = none ∧ addr4Spec "0x10".toList = none := by decide
 
+
+/-! ### `Spells`, unfolded per family -/
+
+/-- IPv4: the address part is at most four '.'-pieces, each read by `int()`, each in 0..255
+    (`addr4Spec`; a strict dotted quad is the special case) -/
+theorem spells4_iff (be : Backend) (t : List Char) (a q : Nat) :
+    Spells be 4 t a q ↔ secondSlash (splitSlash t).2 = false ∧ addr4Spec (splitSlash t).1 = some a ∧
+      PrefixPart be 4 (splitSlash t).2 (q : Int) ∧ q ≤ 32 := by
+  unfold Spells
+  rw [addrPart4_iff be _ (splitSlash_fst t) a]
+  rfl
+
+theorem strict6_ok_iff (be : Backend) (x : List Char) (hx : x.contains '/' = false) (a : Nat) :
+    ipAddress be x (some 6) INET_PTON = .ok ⟨6, a⟩ ↔ inetPton6 be x = some a := by
+  rw [ipAddress6_strict be x hx]
+  cases inetPton6 be x <;> simp
+
+/-- IPv6: the address part is what `inet_pton(AF_INET6, ·)` accepts (RFC 4291 text, C01.strict6_iff) -/
+theorem spells6_iff (be : Backend) (t : List Char) (a q : Nat) :
+    Spells be 6 t a q ↔ secondSlash (splitSlash t).2 = false ∧ inetPton6 be (splitSlash t).1 = some a ∧
+      PrefixPart be 6 (splitSlash t).2 (q : Int) ∧ q ≤ 128 := by
+  unfold Spells
+  rw [addrPart6_iff, strict6_ok_iff be _ (splitSlash_fst t)]
+  rfl
+
+example : PrefixPart .platform 4 (some "255.255.0.0".toList) 16 :=
+  Or.inr ⟨0xffff0000, 16, by decide, by decide, rfl, Or.inl (by decide)⟩
+
+example : (⟨6, 0xfe80 <<< 112 ||| 5, 64⟩ : Net).WF := by
+  refine ⟨Or.inr rfl, by decide, by decide⟩
+
+example : addr4Spec "010.1".toList = some 0x0A010000 ∧ addr4Spec "1.2.3.04".toList = some 0x01020304 := by decide
+
 end NV.C03
